@@ -550,6 +550,13 @@ def _initialize_state_vars(network):
 				n.state_vars[0].on_order_by_predecessor[p_index][rm_index] = \
 					(n.get_attribute('initial_shipments', prod_ind) or 0) * (n.get_attribute('shipment_lead_time', prod_ind) or 0) \
 						+ (n.get_attribute('initial_orders', prod_ind) or 0) * (n.get_attribute('order_lead_time', prod_ind) or 0)
+				# Orders in transit to the external supplier have no inbound order pipeline to sit in; like new orders
+				# to the external supplier, they go into the inbound shipment pipeline (behind the initial shipments),
+				# so that the on-order quantity set above matches what will actually arrive.
+				if p_index is None:
+					for l in range(n.order_lead_time or 0):
+						n.state_vars[0].inbound_shipment_pipeline[p_index][rm_index][(n.shipment_lead_time or 0) + l] = \
+							n.get_attribute('initial_orders', prod_ind) or 0
 
 				# Initialize raw material inventory.
 				for rm_index in n.raw_materials_by_product(product='all', return_indices=True, network_BOM=True):
